@@ -48,7 +48,17 @@ pub fn call(op: &str, e: &Ev) -> Option<Out> {
                 .and_then(|q| q.version(get_usize(e, "version") as u32));
             let params = match params {
                 Ok(p) => p,
-                Err(_) => return Some(Out::Panic),
+                // a refused parameter (Err) is logged as a refusal carrying the variant
+                Err(err) => {
+                    use cryptoxide::kdf::argon2::InvalidParam;
+                    return Some(Out::Refused(match err {
+                        InvalidParam::ParallelismZero => 1,
+                        InvalidParam::ParallelismTooHigh => 2,
+                        InvalidParam::IterationsZero => 3,
+                        InvalidParam::UnknownVersion => 4,
+                        InvalidParam::MemoryTooHigh => 5,
+                    }));
+                }
             };
             if e.contains_key("params_only") {
                 return Some(Out::None);
